@@ -14,6 +14,8 @@ claimed = {
          "Exception/with/finally opcodes whose delta depends on the mode (SETUP_WITH, SETUP_EXCEPT/FINALLY, WITH_CLEANUP, END_FINALLY, POP_EXCEPT, FOR_ITER, JUMP_IF_*_OR_POP, YIELD_*), the assembler (positions, jumps, lnotab), operand tables and the compiler-side depth induction are not yet under contract; the precondition 'stack deep enough' is assumed (established by the compiler). Calls out of the VM are assumed not to write the running frame's fields (ownership assumption listed in evidence).", "4 (C12 group 1)"),
  "C09": ("Sequential ghost protocol of the context lifecycle, proved over the real SSA of pushBusy, popBusy, RunCode, ModuleInit, ResolveAndCompile and Close: a ghost counter models the WaitGroup (Done requires counter > 0, so a negative-counter panic is an unprovable precondition), every entry point performs Done exactly as often as Add on every path including rejected requests, a request on a closed context returns an ordinary error, Close leaves closed = true, counter = 0, close callbacks run exactly once and the done channel closed exactly once (closing a closed channel is a safety obligation), and a second Close changes nothing (sync.Once modelled by a ghost flag with the closure body encoded in place).",
          "Interleavings are NOT decided: the Owicki-Gries layer of DESIGN.md section 4 is not built, so 'under every interleaving' is covered only for the schedule-independent facts above; the check-then-Add window of pushBusy (A22) is a defect seen by reading that no built obligation expresses. sync.WaitGroup/Once and close(chan) are trusted contracts; plain bool fields are treated as sequentially consistent.", "4 (C09)"),
+ "C02": ("The unwinding loop of the real vm.RunFrame is proved, one iteration at a time, against the CPython 3.4 unwinding table (DESIGN Appendix C): for the block on top and the pending reason, the step clauses fix the resulting reason, resume address, block-stack length, value-stack depth and contents (continue re-enters the loop, break truncates to the block level, an exception entering an except/finally block pushes exactly six values - old and new exception triples - and installs an ExceptHandler block at the unwound level with the pending exception cleared and made current, return/continue/break entering a finally block push the return value and the reason code, an ExceptHandler block restores the saved exception and keeps unwinding, every other pair pops and continues). The invariants vm.frame == frame, well-formed block stack and non-negative block levels are proved on entry and preserved. END_FINALLY, POP_EXCEPT, POP_BLOCK, SETUP_LOOP/EXCEPT/FINALLY, BREAK_LOOP, CONTINUE_LOOP, RETURN_VALUE, UnwindBlock, UnwindExceptHandler, PushBlock and PopBlock carry exact per-mode contracts; FOR_ITER ends the loop only on StopIteration and returns any other error unchanged; the traceback line is the line of the last byte of the raising instruction.",
+         "The opcode dispatch inside RunFrame is abstracted by the generic handler contract jumpTable_entry (frame pointer and block-stack well-formedness preserved; assumed, each handler proves it individually under C12); exception class matching (IsException/IsSubtype) and the line table decoder are named by abstract functions with trusted definitional contracts; WITH_CLEANUP, SETUP_WITH, RAISE_VARARGS and the compiler's code generation for try/with are not under contract; the precondition sp >= level + 3 of UnwindExceptHandler and Lasti >= 0 at AddTraceback are not established (listed as undischarged).", "4 (C02)"),
 }
 na = {
  "C06": "not applicable to this technique family: the only faithful specification of the LALR parser is the grammar itself (DESIGN.md section 5)",
